@@ -13,6 +13,7 @@ import (
 	"strings"
 	"time"
 
+	"github.com/fatedier/frp/pkg/msg"
 	"github.com/fatedier/frp/pkg/nathole"
 
 	"verifharness/hx"
@@ -384,6 +385,24 @@ func runNatHole(cfg *hx.RunCfg) error {
 		add(rangeCase(g, dist), true)
 	}
 
+	// the datagram codec of the sid messages: symmetric for every key, the empty one (xtcp without secretKey) included
+	for _, key := range [][]byte{nil, {}, []byte("k"), []byte("a longer secret key with spaces"), g.Bytes(33)} {
+		for i := 0; i < 8; i++ {
+			in := &msg.NatHoleSid{TransactionID: fmt.Sprintf("t%d", g.Intn(1000)), Sid: fmt.Sprintf("sid-%d", g.Intn(100000)), Response: g.Chance(0.5),
+				Nonce: strings.Repeat("0", g.Intn(20))}
+			var out msg.NatHoleSid
+			data, err := nathole.EncodeMessage(in, key)
+			if err == nil {
+				err = nathole.DecodeMessageInto(data, key, &out)
+			}
+			dist["sid_codec_roundtrips"]++
+			if err != nil || out != *in {
+				fails = append(fails, map[string]string{"key": "sid-codec-asymmetric",
+					"what": fmt.Sprintf("DecodeMessageInto(EncodeMessage(m, key), key) is not m for a key of %d bytes: %v", len(key), err),
+					"case": fmt.Sprintf("key=%q message=%+v decoded=%+v", key, *in, out)})
+			}
+		}
+	}
 	cf := &hx.CaseFile{
 		Imports: "From FRP Require Import Corr.C20.\nOpen Scope Z_scope.\n",
 		Typ:     "case",
